@@ -280,6 +280,7 @@ namespace {
             if (leaf) {
                w.validate();
                rep.count("traces");
+               if (rep.samples.size() < rep.sample_cap and h.steps.size() >= 3) rep.sample(vf::JObj{}.str("history", h.text()).num("regions", (long long) w.regions.size()).num("deepest", w.regions.back().depth).done());
                rep.member("outcomes", std::to_string(w.regions.size()) + ":" + std::to_string(w.regions.back().depth));
                if (w.regions.back().depth >= 2) rep.count("distinct_nontrivial");
             }
